@@ -2054,6 +2054,7 @@ pub fn run(args: &Args, rep: &mut Report) {
             rep.count("cases_not_run_after_three_stuck_calls");
             continue;
         }
+        mark_current(&case.lines());
         drv.begin_case();
         let t_case = Instant::now();
         let ev = eval_case(&case, Some(&mut drv), &env);
